@@ -100,7 +100,7 @@ def predicate(case):
                 known[bi] = bh
     k = base
     prod = {}
-    clean = case["kind"] != "corrupt"
+    clean = case["kind"] not in ("corrupt", "tamper")
     for o in ops:
         if o[0] == "prod":
             prod[o[2]] = o[3]
@@ -250,7 +250,8 @@ def run(ctx):
                                               lambda c: c["ops"]),
         "rule": "seeded op sequences (producer, add incl. corrupted/replayed/shifted secrets, "
                 "lookup incl. power-of-two neighbours and indices beyond 2^48, "
-                "encode->decode->continue, far start positions via the codec; thorough: all "
+                "encode->decode->continue, far start positions via the codec, loaded stores with "
+                "one damaged bucket (every bucket comparison singled out); thorough: all "
                 "k < 1024 exhaustively from 3 roots); non-trivial = more than 3 ops; distinct "
                 "by full op list",
         "traces_validated_against_impl": len(rows),
